@@ -75,6 +75,16 @@ NameAllG(G) ==
                      IN N("named", "", <<i>>, 0, "was expecting N" \o ToString(i))]
   IN redirected \o wrappers
 
+\* extra Memoize wrappers around the nodes in M (C03: any sub-parser may be memoised); wrappers are appended,
+\* references are redirected to them (the root Sentence node and existing memo nodes are left alone)
+MemoWrapG(G, M) ==
+  LET idx == {i \in M : i \in 1..Len(G) /\ G[i].k \notin {"memo", "pass"}}
+      rank(i) == Cardinality({j \in idx : j <= i})
+      newId(i) == IF i \in idx THEN Len(G) + rank(i) ELSE i
+      redirected == [i \in 1..Len(G) |-> [G[i] EXCEPT !.kids = [q \in 1..Len(G[i].kids) |-> newId(G[i].kids[q])]]]
+      wrappers == [r \in 1..Cardinality(idx) |-> N("memo", "", <<CHOOSE j \in idx : rank(j) = r>>, 0, "")]
+  IN redirected \o wrappers
+
 \* ---- families --------------------------------------------------------------------
 \* leaves and atoms over one nonterminal P = Ref(1)
 A == Tm(97)
@@ -102,6 +112,16 @@ NMBodies ==
             {SeqE(m, <<c, s>>) : m \in {"sepby", "sepby1"}, c \in cons, s \in {A, Bt}}
   IN {AnyE(<<x>>) : x \in nm} \cup {AnyE(<<x, t>>) : x \in nm, t \in {A, Bt}} \cup
      {AnyE(<<SeqE("of", <<x, t>>), u>>) : x \in nm, t \in {A, Bt}, u \in {A, Eps}}
+
+\* left-recursion-free bodies (C03): right / centre recursion, ambiguity, optionals, non-monotone operators
+LRFreeBodies ==
+  LET at == {A, Bt, Opt(A), Eps}
+      tails == {Ref(1), Opt(Ref(1)), A, Bt}
+      alts == {SeqE("of", <<x>>) : x \in {A, Bt, Eps}} \cup {SeqE("of", <<x, y>>) : x \in {A, Bt}, y \in tails} \cup
+              {SeqE("of", <<x, y, z>>) : x \in {A, Bt}, y \in {Ref(1), Opt(A)}, z \in {A, Bt}}
+      nm == {SeqE("many", <<AnyE(<<A, SeqE("of", <<Bt, A>>)>>)>>), SeqE("sepby1", <<AnyE(<<A, SeqE("of", <<A, A>>)>>), Bt>>),
+             ChoiceE(<<SeqE("of", <<A, Ref(1)>>), A, Eps>>), SeqE("try", <<A, Opt(Bt), A>>), SeqE("foa", <<A, Bt, A>>)}
+  IN {AnyE(<<x, y>>) : x \in alts, y \in alts} \cup {AnyE(<<x>>) : x \in nm} \cup {AnyE(<<x, SeqE("of", <<A, Ref(1)>>)>>) : x \in nm}
 
 \* hidden left recursion behind nullable prefixes (C02's family); x = 120, y = 121
 X == Tm(120)
